@@ -23,7 +23,7 @@ RemoveFabric: from the success edge of Fabrics::remove every path reaches Fabric
 only the load I/O error propagates.
 """
 CLAUSES = ['a: key layout', 'b: store/load/remove agreement per key', 'c: start-up and factory-reset handle the same components', 'd: storage errors never dropped; removal persisted before acknowledging',
-           'e: soft-fail load of the optional cache', 'f: every cluster handler that mutates a fabric persists it', 'g: the subscription mirror writes or clears every slot key']
+           'e: soft-fail load of the optional cache', 'f: every cluster handler that mutates a fabric persists it', 'g: the subscription mirror writes or clears every slot key', 'h: CommissioningComplete writes the fabric record unconditionally']
 NOT_DECIDED = ['round-trip equality of each persisted structure', 'behaviour at each crash prefix of a multi-write history', 'atomicity of the example file-backed store']
 MIN_OBLIGATIONS = {'q': 60, 'd': 45, 'r': 45}
 
@@ -193,18 +193,38 @@ def check(R):
         pass
         if 'case-resumption' in feats:
             lp = R.body('sc::case::resumption::ResumableSessions::load_persist')
-            parse = [t for t in lp.calls() if t.d.get('f', '').endswith('FromTLV::from_tlv')]
-            R.floor('from_tlv in ResumableSessions::load_persist', len(parse), 1)
-            tr = prims.track_result(F, lp, parse[0])
-            bad = []
-            for (frm, to) in tr.failure:
-                r = prims.reach(lp, (to,))
-                errs = [i for i in r if any(st[1].get('op') == 'agg' and st[1].get('var') == 'Err' and st[0][0] == 0 for st in lp.bbs[i]['s'])] + \
-                       [i for i in r if lp.bbs[i]['t']['t'] == 'call' and lp.bbs[i]['t'].get('f') == 'core::ops::try_trait::FromResidual::from_residual']
-                if errs:
-                    bad.append(lp.where(errs[0]))
-            R.expect('P8', lp.fn, 'a parse error of the optional cache never propagates (start-up continues)', bool(tr.failure) and not bad, 'parse-error arm returns Ok(())',
-                     f'the parse-error arm can return an error at {bad}')
+            # whatever shape the decoding takes: the only failures that may leave load_persist as an error are those of the store itself
+            # (load / remove); every other fallible call - TLV decoding in particular - is answered by dropping the cache
+            errblocks = {i_ for i_, blk in enumerate(lp.bbs) if not blk.get('c') and (
+                any(st[1].get('op') == 'agg' and st[1].get('var') == 'Err' and st[0][0] == 0 for st in blk['s'])
+                or (blk['t']['t'] == 'call' and blk['t'].get('f') == 'core::ops::try_trait::FromResidual::from_residual' and blk['t']['d'][0] == 0))}
+            R.floor('error returns of ResumableSessions::load_persist', len(errblocks), 1)
+            prop, nfall = [], 0
+            for t in lp.calls():
+                f_ = t.d.get('f', '')
+                if f_.startswith(('core::ops::try_trait::', 'core::fmt::', 'log::', 'core::panicking')) or lp.is_cleanup(t.bb):
+                    continue
+                try:
+                    tr = prims.track_result(F, lp, t)
+                except Exception:
+                    continue
+                if not tr.failure:
+                    continue
+                nfall += 1
+                r = set()
+                for (frm, to) in tr.failure:
+                    r |= prims.reach(lp, (to,))
+                # an error edge that merely reaches the common error-handling arm is fine when that arm itself cannot return Err except
+                # through a storage call: judge by direct propagation - the failure edge leads to an Err return without passing a store call
+                stores = {c.bb for c in lp.calls(KV + 'load', KV + 'remove', KV + 'store')}
+                r2 = set()
+                for (frm, to) in tr.failure:
+                    r2 |= prims.reach(lp, (to,), cut_blocks=stores)
+                if errblocks & r2 and not f_.startswith(KV):
+                    prop.append(f'{f_.split("::")[-2]}::{f_.split("::")[-1]} at {lp.where(t.bb)}')
+            R.floor('fallible calls in ResumableSessions::load_persist', nfall, 2)
+            R.expect('P8', lp.fn, 'only a failure of the store itself can leave load_persist as an error (a damaged cache is dropped, start-up continues)', not prop,
+                     'decode errors end in the drop-the-cache arm', f'the error of {prop} propagates to the caller: a damaged optional cache prevents start-up')
             ld_ = lp.calls(KV + 'load')
             R.floor('load in ResumableSessions::load_persist', len(ld_), 1)
             result_used(R, 'P8', lp, (KV + 'load',))
@@ -212,6 +232,14 @@ def check(R):
     # ---- f --------------------------------------------------------------------
     with R.clause('f'):
         fabric_mutators_persist(R)
+
+    # ---- h --------------------------------------------------------------------
+    with R.clause('h'):
+        # the fabric-scoped write handlers defer their store while the fail-safe is armed for the fabric and rely on CommissioningComplete
+        # to write the record: that write is unconditional - its success edge cuts the command's Ok, whatever was staged
+        GC = '<dm::clusters::gen_comm::GenCommHandler as dm::clusters::decl::general_commissioning::ClusterHandler>::handle_commissioning_complete'
+        cc = closure_in(R, GC, ['FailSafe::disarm', 'FabricPersist::store'])
+        R.cut('P2', cc, 'CommissioningComplete reports success (Ok)', ok_return_bbs(cc), 'the fabric record was written (FabricPersist::store ok)', lambda: R.call_guard(cc, 'fabric::FabricPersist::store'))
 
     # ---- g --------------------------------------------------------------------
     if 'persistent-subscriptions' in (F.hdr.get('features') or ''):
